@@ -163,7 +163,9 @@ def smear(img, distance, angle=None, pixelscale=1, oversample=1):
     if angle is None:
         angle = np.random.uniform(0, 2 * np.pi)
     else:
-        angle = np.radians(angle)
+        # convert in double precision whatever numeric type the angle came in
+        # (np.radians of a small integer or float32 scalar is float16/float32)
+        angle = np.radians(np.asarray(angle, dtype=float))
 
     yy_rot = np.sin(angle) * yy + np.cos(angle) * xx
 
